@@ -8,7 +8,7 @@
 open Dcommon
 open Datatypes
 
-let max_n = ref 8
+let max_n = ref 10
 let leqb = PeanoNat.Nat.eqb
 
 let cache : (string, nat list list) Hashtbl.t = Hashtbl.create 256
